@@ -101,7 +101,7 @@ def run(tier, seed):
                  "refill boundaries fall; at the end of a round the bytes dropped, the bytes counted into the file position and the positions tested are the same value, "
                  "and on a match exactly the bytes before the matching position are dropped; each refill appends capacity - leadin_len bytes at leadin + leadin_len; the "
                  "buffered bytes are replayed first, at offset 0, min(request, leadin_len) of them, the source read continues right behind them and the call succeeds iff "
-                 "the request was filled; the read-based and the FILE* skip consume exactly the requested count or fail; '-' opens standard input. Decides these necessary "
+                 "the request was filled; the read-based and the FILE* skip consume exactly the requested count or fail; the seek offset reaches fseek without passing a type narrower than long; a marker literal is compared over exactly its length; '-' opens standard input. Decides these necessary "
                  "conditions for every prefix length at once; does not decide which byte patterns are signatures or markers, the decoy counter, or the equality of member "
                  "sequences as such.")
     with Context(tier) as ctx:
